@@ -289,7 +289,7 @@ pub fn run(cx: &mut Ctx) {
                         h.push(ops_ref[x % nops].clone());
                         x /= nops;
                     }
-                    run_history_from(c, &h, keys_ref, false, start_ref);
+                    run_history_from(c, &h, keys_ref, code % 53 == 0, start_ref);
                     count += 1;
                 }
                 c.eval(count);
